@@ -33,7 +33,7 @@ def litOf (cfg : Cfg) (pick : Nat → Nat) (ir : Nat × Route) : Option Bytes :=
 /-- no matching branch raises: `random.choice` is in range, the chosen URL is
     accepted by `Url.from_bytes`, `handle_route` returns normally. -/
 def Clean (cfg : Cfg) (pick : Nat → Nat) (hs : List (Nat × Route)) : Prop :=
-  ∀ ir ∈ hs, ∀ e, routeAct cfg (pick ir.1) ir.2 ≠ .fail e
+  ∀ ir ∈ hs, ∀ e c, routeAct cfg (pick ir.1) ir.2 ≠ .fail e c
 
 theorem hits_mem (m : Nat → Bool) (t : Table) (i0 j : Nat) (r : Route) :
     (j, r) ∈ hits m i0 t ↔ ∃ p, i0 ≤ j ∧ t[j - i0]? = some p ∧ firstMatch m p = some r := by
@@ -149,7 +149,7 @@ theorem routeLoop_clean (cfg : Cfg) (m : Nat → Bool) (pick : Nat → Nat) (t :
         intro ir hir; apply hc; unfold hits; rw [hf]; exact List.mem_cons_of_mem _ hir
       have hhead := hc (i, r) (by unfold hits; rw [hf]; exact List.mem_cons_self)
       cases ha : routeAct cfg (pick i) r with
-      | fail e => exact absurd ha (hhead e)
+      | fail e c => exact absurd ha (hhead e c)
       | url u =>
         simp only []
         rw [ih (i + 1) _ true hc']
@@ -172,7 +172,7 @@ theorem routeLoop_clean (cfg : Cfg) (m : Nat → Bool) (pick : Nat → Nat) (t :
 /-- a failing branch stops the loop there: nothing later is evaluated -/
 theorem routeLoop_fail_head (cfg : Cfg) (m : Nat → Bool) (pick : Nat → Nat) (p : Plugin) (ps : Table) (i : Nat)
     (s : St) (needs : Bool) (r : Route) (e : Err) (hf : firstMatch m p = some r)
-    (ha : routeAct cfg (pick i) r = .fail e) :
+    (ha : routeAct cfg (pick i) r = .fail e none) :
     routeLoop cfg m pick i (p :: ps) s needs = (s, needs, some e) := by
   unfold routeLoop; rw [hf]; simp only []; rw [ha]
 
@@ -405,3 +405,209 @@ theorem delivered_segs (segs : List Bytes) (hne : ∀ x ∈ segs, x ≠ []) :
     simp [delivered, UpEv.terminal, hx, ih'.1, ih'.2]
 
 end Px.Reverse
+
+/-! ### the parser keeps the original-case header names pairwise distinct
+
+`HttpParser.add_header` keys the map on the lower-cased name; the invariant `HOk`
+(keys are the lower-cased names and pairwise distinct) is preserved by every step
+of `HttpParser.parse`, hence the names themselves are pairwise distinct. -/
+namespace Px.Reverse.HdrInv
+open Px.Parser
+
+/-- keys are the lower-cased names and pairwise distinct -/
+def HOk : Option Headers → Prop
+  | none => True
+  | some hs => (∀ e ∈ hs, e.1 = lower e.2.1) ∧ (hs.map (·.1)).Nodup
+
+theorem hdrSet_ok (hs : Headers) (key value : Bytes) (h : HOk (some hs)) :
+    HOk (some (hdrSet hs (lower key) (key, value))) := by
+  obtain ⟨h1, h2⟩ := h
+  unfold hdrSet
+  by_cases ha : hs.any (fun e => e.1 == lower key) = true
+  · simp only [ha, if_true]
+    refine ⟨?_, ?_⟩
+    · intro e he
+      obtain ⟨e0, he0, rfl⟩ := List.mem_map.1 he
+      by_cases hk : (e0.1 == lower key) = true
+      · simp [hk]
+      · simp only [hk, Bool.false_eq_true, if_false]; exact h1 e0 he0
+    · have : (hs.map (fun e => if (e.1 == lower key) = true then (lower key, (key, value)) else e)).map (·.1)
+          = hs.map (·.1) := by
+        rw [List.map_map]; apply List.map_congr_left
+        intro e _
+        by_cases hk : (e.1 == lower key) = true
+        · simp only [Function.comp, hk, if_true]; exact (beq_iff_eq.1 hk).symm
+        · simp [Function.comp, hk]
+      rw [this]; exact h2
+  · have ha' : hs.any (fun e => e.1 == lower key) = false := Bool.eq_false_iff.2 ha
+    simp only [ha', Bool.false_eq_true, if_false]
+    refine ⟨?_, ?_⟩
+    · intro e he
+      rcases List.mem_append.1 he with he | he
+      · exact h1 e he
+      · simp at he; subst he; rfl
+    · simp only [List.map_append, List.map_cons, List.map_nil]
+      rw [List.nodup_append]
+      refine ⟨h2, by simp, ?_⟩
+      intro a ha b hb
+      simp at hb; subst hb
+      intro hab; subst hab
+      obtain ⟨e, he, hk⟩ := List.mem_map.1 ha
+      simp only [List.any_eq_false, beq_iff_eq] at ha'
+      exact ha' e he hk
+
+theorem addHeader_ok (p : Parser) (key value : Bytes) (h : HOk p.headers) :
+    HOk (addHeader p key value).headers := by
+  unfold addHeader
+  simp only
+  cases hh : p.headers with
+  | none => exact hdrSet_ok [] key value ⟨by simp, by simp⟩
+  | some hs => rw [hh] at h; exact hdrSet_ok hs key value h
+
+theorem processHeader_ok (p p' : Parser) (line : Bytes) (h : HOk p.headers)
+    (hp : processHeader p line = .ok p') : HOk p'.headers := by
+  unfold processHeader at hp
+  split at hp
+  rename_i key value _
+  have := addHeader_ok p key value h
+  simp only at hp
+  split at hp
+  · split at hp
+    · cases hp
+    · cases hp; exact this
+  · split at hp <;> (cases hp; exact this)
+
+
+theorem processHeaders_ok (fuel : Nat) (p p' : Parser) (raw rest : Bytes) (more : Bool) (h : HOk p.headers)
+    (hp : processHeaders fuel p raw = .ok (p', more, rest)) : HOk p'.headers := by
+  induction fuel generalizing p raw with
+  | zero => simp only [processHeaders] at hp; cases hp; exact h
+  | succ n ih =>
+    unfold processHeaders at hp
+    cases hs : splitCRLF raw with
+    | none => simp only [hs] at hp; cases hp; exact h
+    | some lr =>
+      obtain ⟨line, rst⟩ := lr
+      simp only [hs] at hp
+      split at hp
+      · cases hp
+      · rename_i q hstep
+        have hq : HOk q.headers := by
+          split at hstep
+          · split at hstep
+            · cases hstep; exact h
+            · exact processHeader_ok _ _ _ (by exact h) hstep
+          · cases hstep; exact h
+        split at hp
+        · cases hp; exact hq
+        · exact ih q rst hq hp
+
+theorem processLine_ok (cfg : Px.Parser.Cfg) (p p' : Parser) (raw rest : Bytes) (more : Bool) (h : HOk p.headers)
+    (hp : processLine cfg p raw = .ok (p', more, rest)) : HOk p'.headers := by
+  unfold processLine at hp
+  cases hs : splitCRLF raw with
+  | none => simp only [hs] at hp; cases hp; exact h
+  | some lr =>
+    obtain ⟨line, rst⟩ := lr
+    simp only [hs] at hp
+    cases hty : p.ty with
+    | request =>
+      simp only [hty] at hp
+      split at hp
+      · split at hp
+        · cases hp
+        · cases hp
+          simp only [setLineAttributes]
+          split <;> exact h
+      · cases hp
+    | response =>
+      simp only [hty] at hp
+      split at hp <;> first | (cases hp; exact h) | cases hp
+
+theorem processBody_ok (p p' : Parser) (raw rest : Bytes) (more : Bool) (h : HOk p.headers)
+    (hp : processBody p raw = .ok (p', more, rest)) : HOk p'.headers := by
+  unfold processBody at hp
+  by_cases hc : p.isChunked = true
+  · simp only [hc, if_true] at hp
+    split at hp
+    · cases hp
+    · cases hp
+      split <;> exact h
+  · simp only [hc, Bool.false_eq_true, if_false] at hp
+    by_cases he : p.contentExpected = true
+    · simp only [he, if_true] at hp
+      split at hp
+      · cases hp
+      · split at hp
+        · cases hp
+        · cases hp; exact h
+    · simp only [he, Bool.false_eq_true, if_false] at hp
+      cases hp; exact h
+
+theorem stepOnce_ok (cfg : Px.Parser.Cfg) (p p' : Parser) (raw rest : Bytes) (more : Bool) (h : HOk p.headers)
+    (hp : stepOnce cfg p raw = .ok (p', more, rest)) : HOk p'.headers := by
+  unfold stepOnce at hp
+  simp only at hp
+  split at hp
+  · cases hp
+  · rename_i q mr rw hr
+    have hq : HOk q.headers := by
+      split at hr
+      · exact processBody_ok _ _ _ _ _ h hr
+      · split at hr
+        · exact processLine_ok _ _ _ _ _ _ h hr
+        · exact processHeaders_ok _ _ _ _ _ _ h hr
+    split at hp
+    · cases hp; exact hq
+    · split at hp <;> (cases hp; exact hq)
+
+theorem loop_ok (cfg : Px.Parser.Cfg) (fuel : Nat) (p p' : Parser) (more : Bool) (raw rest : Bytes) (h : HOk p.headers)
+    (hp : loop cfg fuel p more raw = .ok (p', rest)) : HOk p'.headers := by
+  induction fuel generalizing p more raw with
+  | zero => simp only [loop] at hp; cases hp; exact h
+  | succ n ih =>
+    unfold loop at hp
+    split at hp
+    · cases hp; exact h
+    · split at hp
+      · cases hp
+      · rename_i q mr rw hs
+        exact ih q mr rw (stepOnce_ok _ _ _ _ _ _ h hs) hp
+
+theorem parse_ok (cfg : Px.Parser.Cfg) (p p' : Parser) (raw : Bytes) (h : HOk p.headers)
+    (hp : parse cfg p raw = .ok p') : HOk p'.headers := by
+  unfold parse at hp
+  simp only at hp
+  split at hp
+  · cases hp
+  · rename_i q rst hl
+    cases hp
+    exact loop_ok _ _ _ q _ _ _ (by exact h) hl
+
+theorem parseAll_ok (cfg : Px.Parser.Cfg) (p p' : Parser) (segs : List Bytes) (h : HOk p.headers)
+    (hp : parseAll cfg p segs = .ok p') : HOk p'.headers := by
+  induction segs generalizing p with
+  | nil => simp only [parseAll] at hp; cases hp; exact h
+  | cons x xs ih =>
+    unfold parseAll at hp
+    split at hp
+    · cases hp
+    · rename_i q hq
+      exact ih q (parse_ok _ _ _ _ h hq) hp
+
+theorem nodup_of_map {α β : Type} (f : α → β) (l : List α) (h : (l.map f).Nodup) : l.Nodup := by
+  induction l with
+  | nil => exact List.nodup_nil
+  | cons a as ih =>
+    simp only [List.map_cons, List.nodup_cons] at h ⊢
+    exact ⟨fun ha => h.1 (List.mem_map.2 ⟨a, ha, rfl⟩), ih h.2⟩
+
+/-- the original-case names of a header map built by the parser are pairwise distinct -/
+theorem names_nodup (hs : Headers) (h : HOk (some hs)) : (hs.map (fun e => e.2.1)).Nodup := by
+  obtain ⟨h1, h2⟩ := h
+  have : hs.map (·.1) = (hs.map (fun e => e.2.1)).map lower := by
+    rw [List.map_map]; apply List.map_congr_left; intro e he; exact h1 e he
+  rw [this] at h2
+  exact nodup_of_map lower _ h2
+
+end Px.Reverse.HdrInv
